@@ -254,7 +254,7 @@ func judgeAbortedNotes(o *SyncObs) (string, string) {
 	return "", ""
 }
 
-func judgeC05(c c05Case) (string, string) {
+func judgeC05Raw(c c05Case) (string, string) {
 	var o *SyncObs
 	if c.Hist != nil {
 		var e string
@@ -561,4 +561,14 @@ func replayC05(raw json.RawMessage) string {
 		return ""
 	}
 	return key + ": " + msg
+}
+
+// judgeC05 is judgeC05Raw with a panic of the code under test turned into a verdict (never a crash of the check).
+func judgeC05(c c05Case) (k, m string) {
+	defer func() {
+		if r := recover(); r != nil {
+			k, m = "panic", fmt.Sprintf("the code under test panicked: %v", r)
+		}
+	}()
+	return judgeC05Raw(c)
 }
